@@ -520,6 +520,14 @@ pub fn run(prop: &dyn Prop, tier: Tier, seed: u64) -> i32 {
     }
     prop.post(seed, tier, &mut m);
     let _ = std::fs::remove_dir_all(&tmp);
+    // scratch files of emit_wasm (kept across the emissions of one worker on purpose)
+    if let Ok(rd) = std::fs::read_dir(format!("{}/out/run", verif_dir())) {
+        for e in rd.flatten() {
+            if e.file_name().to_string_lossy().starts_with("emit-") {
+                let _ = std::fs::remove_file(e.path());
+            }
+        }
+    }
     finish(prop, tier, seed, m, t0)
 }
 
